@@ -271,7 +271,8 @@ Inductive vcase :=
 | CMsgRt (m : cmsg) (code1 : N) (out : bspec) (code2 : N) (back : cmsg)
 | CMsgDec (d : bytes) (code : N) (back : cmsg)
 | CQuery (m : cmsg) (dom : name) (hasresp : bool) (flags : N) (haspay : bool) (payload : bytes)
-| CExch (dom : name) (plen : N) (qw : bytes) (rlen : N) (rw : bytes) (fallback : bool).
+| CExch (dom : name) (plen : N) (qw : bytes) (rlen : N) (rw : bytes) (fallback : bool)
+| CNameStr (n : name) (s : bytes).
 
 Definition chk (c : vcase) : bool :=
   match c with
@@ -288,4 +289,5 @@ Definition chk (c : vcase) : bool :=
   | CMsgDec d c b => chk_msg_dec d c b
   | CQuery m d hr fl hp p => chk_query m d hr fl hp p
   | CExch d pl qw rl rw fb => chk_exch d pl qw rl rw fb
+  | CNameStr n s => bytes_eqb (name_string n) s
   end.
